@@ -102,7 +102,16 @@ fn gen_text(c: &mut Case<'_>, unicode: bool, max: usize) -> String {
     let mut s = String::new();
     for _ in 0..n {
         let ch = if unicode && c.t.chance(70) {
-            *c.t.pick(&['é', 'ß', '漢', '😀', '\u{301}', 'Ω'])
+            // one or two characters for every UTF-8 lead-byte class (C2-DF, E0, E1-EC, ED, EE, EF, F0, F1-F3, F4) and the
+            // code points at the class borders; or any scalar value at all
+            if c.t.chance(40) {
+                c.t.scalar(false)
+            } else {
+                *c.t.pick(&[
+                    'é', 'ß', '漢', '😀', '\u{301}', 'Ω', '\u{80}', '\u{7FF}', '\u{800}', '\u{FFF}', '\u{1000}', '\u{CFFF}', '\u{D000}', '\u{D7FF}', '\u{E000}', '\u{EFFF}', '\u{F000}', '\u{FEFF}', '\u{FF11}', '\u{FFFD}',
+                    '\u{FFFF}', '\u{10000}', '\u{3FFFF}', '\u{40000}', '\u{FFFFF}', '\u{100000}', '\u{10FFFF}',
+                ])
+            }
         } else {
             *c.t.pick(&['a', 'b', 'c', '/', ':', '-', '1', '*', '?'])
         };
@@ -394,6 +403,26 @@ pub fn run(r: &mut Runner) {
     });
 
     // 2. random longer / unicode pairs, pattern sets
+    // `?` is one character whatever its UTF-8 length: every scalar value once
+    r.exhaustive("question-mark-every-scalar", 0x11_0000, |idx, c| {
+        let Some(ch) = char::from_u32(idx as u32) else { return Ok(()) };
+        if matches!(ch, '*' | '?') {
+            return Ok(());
+        }
+        if ch.len_utf8() > 1 && !c.allow("wildcard-bytewise-question-mark") {
+            return Ok(());
+        }
+        if idx % 4099 == 0 {
+            c.nontrivial();
+            c.fp(&idx);
+        }
+        let s1 = ch.to_string();
+        let s3 = format!("a{ch}b");
+        check_pair(c, "?", &s1)?;
+        check_pair(c, "??", &s1)?;
+        check_pair(c, "a?b", &s3)?;
+        check_pair(c, "a???b", &s3)
+    });
     r.search("wildcard-random", r.scale(60_000, 3_000_000), 96, |c| {
         let unicode = c.t.bool() && c.allow("wildcard-bytewise-question-mark");
         let s = gen_text(c, unicode, 24);
